@@ -42,6 +42,28 @@ B_CfgChoices == { F(<<2, 1>>, <<1, 1>>, <<3, 1>>, 2),
 B_AdoptChoices == { <<>>,
                     <<[order |-> "o1", name |-> "g1", units |-> <<U(2, 1, 1, 1, 1), U(1, 1, 2, 0, 1)>>]>> }
 
+\* ---- levels: commit levels that DIFFER between cpu, memory and storage ------------------------------
+\* One-dimension-heavy requests on a node of (2,2,2) / (1,1,1): under (2,1,1) cpu is the binding constraint for two
+\* cpu-heavy requests, under (1,2,4)... memory resp. storage; a level applied to the wrong dimension either grants
+\* what does not fit or reports other amounts. (1,1,1) and levels below 1 (no under-commit) leave amounts as requested.
+L_Orders == {"o1"}
+L_Names == {"g1"}
+L_EventNames == {"g1"}
+L_ReqShapes == {
+    <<U(4, 1, 1, 0, 1)>>,                      \* cpu-heavy
+    <<U(1, 4, 1, 0, 1)>>,                      \* memory-heavy
+    <<U(1, 1, 4, 0, 1)>>,                      \* storage-heavy
+    <<U(1, 1, 1, 0, 1)>>,                      \* small
+    <<U(2, 4, 1, 1, 1), U(1, 2, 4, 0, 1)>> }   \* two entries, mixed
+L_InvChoices == { <<N(2, 2, 2)>>, <<N(1, 1, 1)>>, <<N(4, 2, 2), N(2, 4, 4)>> }
+L_CfgChoices == { F(<<1, 1>>, <<1, 1>>, <<1, 1>>, 2),
+                  F(<<2, 1>>, <<1, 1>>, <<1, 1>>, 2),
+                  F(<<1, 1>>, <<4, 1>>, <<2, 1>>, 2),
+                  F(<<1, 1>>, <<2, 1>>, <<4, 1>>, 2),
+                  F(<<4, 1>>, <<2, 1>>, <<1, 1>>, 2),
+                  F(<<1, 2>>, <<3, 1>>, <<1, 2>>, 2) }     \* 0.5 = no under-commit; 3 for memory only
+L_AdoptChoices == { <<>> }
+
 \* Every transition TLC generates is printed as a script: the history up to and including the step.
 ExportEdge == PrintT(ToJson([cfg |-> st.cfg, adopt |-> st.adopt, steps |-> hist']))
 =============================================================================
